@@ -667,7 +667,15 @@ func reifyDoArray(
 	tLen := to.Len()
 	for idx := 0; idx < tLen; idx++ {
 		if idx >= start && idx < start+aLen {
+			// every element is evaluated on its own, like the entries of a
+			// map or the fields of a struct (unless the value itself stands
+			// for a list of one element: it has been looked at in this scope)
+			closeScope := func() {}
+			if !(aLen == 1 && arr[0] == val) {
+				closeScope = opts.opts.scopeActiveFields()
+			}
 			v, err := reifyMergeValue(opts, to.Index(idx), arr[idx-start])
+			closeScope()
 			if err != nil {
 				return reflect.Value{}, err
 			}
@@ -782,14 +790,11 @@ func doReifyPrimitive(
 		tRegexp:   reifyRegexp,
 	}
 
-	previous := opts.opts.activeFields
-	opts.opts.activeFields = newFieldSet(previous)
 	valT, err := val.typ(opts.opts)
 	if err != nil {
 		ctx := val.Context()
 		return reflect.Value{}, raisePathErr(err, val.meta(), "", ctx.path("."))
 	}
-	opts.opts.activeFields = previous
 
 	// try primitive conversion
 	kind := baseType.Kind()
